@@ -359,6 +359,11 @@ impl<H: Host> ZXController<H> {
         }
     }
 
+    /// Returns RAM bank which is currently displayed by ULA
+    pub fn screen_bank(&self) -> u8 {
+        self.screen_bank
+    }
+
     /// Removes 128K paging lock. Used when whole machine state is replaced (snapshot loading)
     pub fn unlock_paging(&mut self) {
         self.paging_enabled = self.machine == ZXMachine::Sinclair128K;
